@@ -8,8 +8,9 @@
 (***************************************************************************)
 EXTENDS MT
 
-VARIABLES l, pre, obs, drift, driftAt
-tvars == <<st, ev, gh, hist, l, pre, obs, drift, driftAt>>
+(* pgh = the ghosts before the last event (the history's ledger C15_HistAuthority judges it by) *)
+VARIABLES l, pre, pgh, obs, drift, driftAt
+tvars == <<st, ev, gh, hist, l, pre, pgh, obs, drift, driftAt>>
 
 Trace == ndJsonDeserialize(IOEnv.TRACE_FILE)
 
@@ -29,7 +30,7 @@ TraceInit ==
   /\ Trace[1].ev.name = "Init"
   /\ st = FromLog(Trace[1].st) /\ pre = FromLog(Trace[1].st)
   /\ obs = ObsOf(Trace[1].st)
-  /\ ev = Trace[1].ev /\ gh = GhostOf(FromLog(Trace[1].st)) /\ hist = <<>>
+  /\ ev = Trace[1].ev /\ gh = GhostOf(FromLog(Trace[1].st)) /\ pgh = GhostOf(FromLog(Trace[1].st)) /\ hist = <<>>
   /\ l = 2 /\ drift = 0 /\ driftAt = 0
 
 Predicted(s, e) ==
@@ -43,9 +44,9 @@ TraceNext ==
          t == FromLog(Trace[l].st)
      IN /\ ev' = e /\ st' = t /\ obs' = ObsOf(Trace[l].st)
         /\ IF e.name = "Init"
-           THEN /\ gh' = GhostOf(t) /\ pre' = t
+           THEN /\ gh' = GhostOf(t) /\ pgh' = GhostOf(t) /\ pre' = t
                 /\ UNCHANGED <<drift, driftAt>>
-           ELSE /\ gh' = CovStep(gh, st, e, t) /\ pre' = st
+           ELSE /\ gh' = CovStep(gh, st, e, t) /\ pgh' = gh /\ pre' = st
                 /\ LET d == Predicted(st, e) # Observed(e, t) IN
                    /\ drift' = drift + (IF d THEN 1 ELSE 0)
                    /\ driftAt' = IF d /\ driftAt = 0 THEN l ELSE driftAt
@@ -71,6 +72,8 @@ Clauses ==
    Rejected_NoEffect |-> Rejected_NoEffect(pre, ev, st),
    C15_StoreSum |-> C15_StoreSum(obs.raw),
    C15_Reported |-> C15_Reported(st, obs.raw, obs.q),
+   C15_HistAuthority |-> C15_HistAuthority(ev, pgh),
+   C15_HistOwner |-> C15_HistOwner(st, gh),
    X15_ReadBack |-> X15_ReadBack(st, obs.raw, obs.q),
    X15_Counters |-> X15_Counters(st),
    X15_Records |-> X15_Records(pre, ev, st),
